@@ -10,13 +10,16 @@ fn run(cfg: &str, multi: bool, rt: &tokio::runtime::Runtime, out: &mut Vec<Failu
     } else {
         rt.block_on(akd::vx_export::c14_variants::<ExperimentalConfiguration<ExampleLabel>>())
     };
-    let r = if multi { go(&tokio::runtime::Builder::new_multi_thread().worker_threads(4).enable_all().build().unwrap()) } else { go(rt) };
+    std::panic::set_hook(Box::new(|_| {}));
+    let r = std::panic::catch_unwind(std::panic::AssertUnwindSafe(|| if multi { go(&tokio::runtime::Builder::new_multi_thread().worker_threads(4).enable_all().build().unwrap()) } else { go(rt) }));
+    let _ = std::panic::take_hook();
+    let r = match r { Ok(x) => x, Err(_) => Ok(vec!["a call PANICKED in one of the variants (every variant must produce results)".to_string()]) };
     if let Ok(bad) = r {
         if let Some(b) = bad.first() {
             out.push(Failure {
                 clause: "replay/c14#variants".into(),
                 case: vec!["c14".into(), cfg.into(), (multi as u8).to_string()],
-                input: format!("[{cfg}, {} runtime] 4-epoch history (12 labels, updates, the 12 again in reverse order, one more) under {{sequential, parallel}} x {{no cache, cache}} x {{long-lived, re-created before every call}}", if multi { "4-worker" } else { "single-threaded" }),
+                input: format!("[{cfg}, {} runtime] 4-epoch history (12 labels, updates, the 12 again in reverse order, one more) under {{sequential, parallel}} x {{no cache, default cache, 64-byte memory limit, 2 ms item lifetime}} x {{long-lived, re-created before every call}}", if multi { "4-worker" } else { "single-threaded" }),
                 expected: "identical epoch hashes and identical verified lookup results in every variant".into(),
                 observed: format!("{b} ({} problems)", bad.len()),
                 finding_id: None,
@@ -28,8 +31,8 @@ fn run(cfg: &str, multi: bool, rt: &tokio::runtime::Runtime, out: &mut Vec<Failu
 pub fn search(_seed: u64, _full: bool, rt: &tokio::runtime::Runtime) -> SearchResult {
     let mut out = vec![];
     let mut n = 0;
-    for cfg in ["whatsapp_v1", "experimental"] { for multi in [false, true] { run(cfg, multi, rt, &mut out); n += 8; } }
-    SearchResult { evaluations: n, failures: out, summary: "BOUNDED: one 4-epoch history under 8 variants (parallelism x cache x restart) x 2 runtimes x both configurations".into() }
+    for cfg in ["whatsapp_v1", "experimental"] { for multi in [false, true] { run(cfg, multi, rt, &mut out); n += 16; } }
+    SearchResult { evaluations: n, failures: out, summary: "BOUNDED: one 4-epoch history under 16 variants (parallelism x cache {none, default, 64-byte memory limit, 2 ms lifetime} x restart) x 2 runtimes x both configurations".into() }
 }
 
 pub fn replay(case: &[&str], rt: &tokio::runtime::Runtime) -> (bool, String) {
